@@ -59,8 +59,10 @@ func runPipelined(c hCase, ls hRun) ([]byte, string) {
 	c.Discipline = strings.TrimSuffix(c.Discipline, "+eof")
 	c.Cfg.EOFWithData = finalEOF
 	r := harness.NewRig(c.Cfg, c.Script)
+	bw := startBystander(c, r)
 	w, _ := r.Dial()
 	if st := w.WaitQuiet(); st != harness.QIdle {
+		endBystander(bw)
 		w.Finish()
 		return nil, "server not idle after connect: " + st
 	}
@@ -92,10 +94,12 @@ func runPipelined(c hCase, ls hRun) ([]byte, string) {
 			// everything before it has been dealt with
 			flush()
 			if st := settle(); st != harness.QIdle && st != harness.QClosed {
+				endBystander(bw)
 				w.Finish()
 				return nil, "pipelined run: server not idle before Shutdown begins: " + st
 			}
 			if !r.BeginShutdown() {
+				endBystander(bw)
 				w.Finish()
 				return nil, "pipelined run: graceful Shutdown did not close the listener (watchdog)"
 			}
@@ -105,6 +109,7 @@ func runPipelined(c hCase, ls hRun) ([]byte, string) {
 			flush()
 			for _, g := range s.Sent {
 				if st := settle(); st != harness.QIdle && st != harness.QClosed {
+					endBystander(bw)
 					w.Finish()
 					return nil, "pipelined run: server not idle before a barrier group: " + st
 				}
@@ -124,11 +129,13 @@ func runPipelined(c hCase, ls hRun) ([]byte, string) {
 				st = w.WaitQuiet()
 			}
 			if st != harness.QIdle {
+				endBystander(bw)
 				w.Finish()
 				return nil, "pipelined run: server not idle before the TLS handshake: " + st
 			}
 			w.Recv() // take the plaintext replies off the wire before TLS reads from it
 			if err := w.StartTLS(); err != nil {
+				endBystander(bw)
 				w.Finish()
 				return nil, "pipelined run: TLS handshake: " + err.Error()
 			}
@@ -138,6 +145,7 @@ func runPipelined(c hCase, ls hRun) ([]byte, string) {
 				st = w.WaitQuiet()
 			}
 			if st != harness.QIdle {
+				endBystander(bw)
 				w.Finish()
 				return nil, "pipelined run: server not idle after the TLS handshake: " + st
 			}
@@ -153,6 +161,7 @@ func runPipelined(c hCase, ls hRun) ([]byte, string) {
 		}
 		r.B.ReleaseArrived()
 	}
+	endBystander(bw)
 	_, fin := w.Finish()
 	if !fin {
 		if w.Deadlock != "" {
@@ -183,6 +192,7 @@ func c04Run(c hCase) Verdict {
 		return failf("reply-syntax", "banner: %v %s", err, q(ls.banner))
 	}
 	m := newMonitor(c)
+	m.preload(ls.pre)
 	hasMsg := false
 	if k := closedByShutdown(c, ls); k >= 0 {
 		// judged up to there; when the server ends the connection is its own
